@@ -9,8 +9,12 @@ From Mage Require Import Base.Strs Model.Timeout Model.Deps Model.DepsReplay.
 
 Record otgt := { oo_cancel : option bool   (* None: not observable (the report races with the exit) *);
                  oo_end : bool }.
+(* tc_sigs: the SIGINT arrival times.  tc_kill = Some tau: at tau a signal OTHER than SIGINT arrives (SIGTERM, SIGHUP, SIGUSR1 ...):
+   the generated main subscribes to SIGINT only, so the Go runtime's default disposition applies - outside Model/Timeout.v -
+   and the process dies with that signal (tc_killed) iff it is still running at tau; tc_sigs then holds the SIGINTs before tau. *)
 Record tcase := { tc_d : Z; tc_targets : list target; tc_sigs : list Z;
-                  tc_exit : Z; tc_cls : cls; tc_obs : list otgt }.
+                  tc_exit : Z; tc_cls : cls; tc_obs : list otgt;
+                  tc_kill : option Z; tc_killed : bool }.
 Inductive case := CTime (c : tcase) | CGraph (p : prog) (o : list oevent) (fuel : nat).
 
 Inductive obs := OResults (l : list (cls * Z * list (bool * bool))) | OVerdict (v : verdict).
@@ -57,8 +61,14 @@ Definition model_obs (c : case) : obs :=
 
 Definition check (c : case) : option obs :=
   match c with
-  | CTime t => if existsb (fun r => matches r t) (run_targets (tc_d t) (tc_targets t) 0%Z (tc_sigs t))
-               then None else Some (model_obs c)
+  | CTime t =>
+      let rs := run_targets (tc_d t) (tc_targets t) 0%Z (tc_sigs t) in
+      let ok := match tc_kill t with
+                | None => negb (tc_killed t) && existsb (fun r => matches r t) rs
+                | Some tau => if tc_killed t then existsb (fun r => Z.leb tau (r_time r)) rs          (* still running at tau *)
+                              else existsb (fun r => matches r t && Z.leb (r_time r) tau) rs          (* had ended before *)
+                end in
+      if ok then None else Some (model_obs c)
   | CGraph p o fuel => match accepts p fuel o [] with Accepted => None | v => Some (OVerdict v) end
   end.
 
